@@ -1,5 +1,10 @@
 package websocket
 
+import (
+	"errors"
+	"io"
+)
+
 // C12 — message round trip between two real endpoints (no compression).
 
 // verifC12Payload builds a payload of length n: every byte symbolic up to 12
@@ -139,5 +144,105 @@ func verifHarness_C12_maskxor_involution() {
 	}
 	maskXOR(b, key)
 	verifAssertD(verifEqBytes(b, orig), "mask-twice-restores", "")
+	verifAssert(false, "witness")
+}
+
+// ---- compression negotiated, with the codec replaced by an invertible stub
+// (compress/flate itself is outside the claim): what is checked is nbio's own
+// handling around it — RSV1 on the first frame only, fragmentation of the
+// compressed payload, reassembly and decompression of the WHOLE message.
+
+type verifStubCompressor struct{ w io.WriteCloser; started bool }
+
+func (s *verifStubCompressor) Write(p []byte) (int, error) {
+	out := make([]byte, 0, len(p)+1)
+	if !s.started {
+		s.started = true
+		out = append(out, 'C')
+	}
+	for _, b := range p {
+		out = append(out, b^0x55)
+	}
+	if _, err := s.w.Write(out); err != nil {
+		return 0, err
+	}
+	return len(p), nil
+}
+func (s *verifStubCompressor) Close() error { return nil }
+
+type verifStubDecompressor struct {
+	r    io.Reader
+	data []byte
+	pos  int
+	init bool
+	bad  bool
+}
+
+func (s *verifStubDecompressor) Read(p []byte) (int, error) {
+	if !s.init {
+		s.init = true
+		all, _ := io.ReadAll(s.r)
+		tail := len(flateReaderTail)
+		if len(all) < tail+1 || all[0] != 'C' {
+			s.bad = true
+			return 0, errors.New("verif: not a stub-compressed stream")
+		}
+		for _, b := range all[1 : len(all)-tail] {
+			s.data = append(s.data, b^0x55)
+		}
+	}
+	if s.pos >= len(s.data) {
+		return 0, io.EOF
+	}
+	n := copy(p, s.data[s.pos:])
+	s.pos += n
+	return n, nil
+}
+func (s *verifStubDecompressor) Close() error { return nil }
+
+func verifHarness_C12_roundtrip_compression_stub_codec() {
+	verifBound("payload_len_max", 6)
+	clientSends := verifChoose("sender_is_client", 2) == 1
+	n := verifChoose("len", 7)
+	limit := []int{1 << 15, 2, 3}[verifChoose("frame_limit", 3)]
+	snd := verifNewEndpoint(clientSends, true, 0, nil)
+	rcv := verifNewEndpoint(!clientSends, true, 0, nil)
+	snd.eng.MaxWebsocketFramePayloadSize = limit
+	snd.c.enableWriteCompression = true
+	snd.u.WebsocketCompressor = func(c *Conn, w io.WriteCloser, level int) io.WriteCloser {
+		return &verifStubCompressor{w: w}
+	}
+	rcv.u.WebsocketDecompressor = func(c *Conn, r io.Reader) io.ReadCloser {
+		return &verifStubDecompressor{r: r}
+	}
+	payload := verifBytes("p", n)
+	orig := append([]byte(nil), payload...)
+	err := snd.c.WriteMessage(BinaryMessage, payload)
+	verifAssertD(err == nil, "write-succeeds", "compressed")
+	wire := snd.fake.wire()
+	// RSV1 marks the first frame of a compressed message, and only that one
+	pos, first := 0, true
+	for pos < len(wire) {
+		f := verifDecodeFrame(wire[pos:])
+		verifAssertD(f.ok, "sender-frame-decodes", "compressed")
+		if !f.ok {
+			break
+		}
+		verifAssertD(f.rsv1 == first, "rsv1-on-first-frame-only", "")
+		first = false
+		pos += f.total
+	}
+	cut := verifConc(verifInt("cut", 1, len(wire)))
+	perr := rcv.c.Parse(append([]byte(nil), wire[:cut]...))
+	if perr == nil && cut < len(wire) {
+		perr = rcv.c.Parse(append([]byte(nil), wire[cut:]...))
+	}
+	verifAssertD(perr == nil, "receiver-accepts", "compressed")
+	verifAssertD(len(rcv.msgs) == 1, "delivered-exactly-once", "compressed")
+	if len(rcv.msgs) == 1 {
+		verifReach("delivered")
+		verifAssertD(rcv.msgs[0].typ == BinaryMessage, "same-type", "compressed")
+		verifAssertD(len(rcv.msgs[0].data) == n && verifEqBytes(rcv.msgs[0].data, orig), "same-payload", "compressed")
+	}
 	verifAssert(false, "witness")
 }
